@@ -67,7 +67,21 @@ def c10_r1(ctx):
     for c in norm.calls_in(wb.node):
         if norm.call_name(c) == "compress" and len(c.args) >= 2:
             comp_texts.add(norm.canon(c.args[1]))
-    wroles = ["compression" if norm.canon(e) in comp_texts else _role_w(norm.deep_canon(e, wb.node)) for e in wtuple.elts]
+    # an element may be asked of the writer itself: self.max_id(), len(self) -- read through to what that method returns
+    wcls = prog.cls(W3 + "W3PostingsWriter")
+
+    def through_getters(e):
+        g = None
+        if isinstance(e, ast.Call) and not e.args and not e.keywords and isinstance(e.func, ast.Attribute) and norm.canon(e.func.value) == "self":
+            g = prog.lookup(wcls, e.func.attr)
+        elif isinstance(e, ast.Call) and isinstance(e.func, ast.Name) and e.func.id == "len" and len(e.args) == 1 and norm.canon(e.args[0]) == "self":
+            g = prog.lookup(wcls, "__len__")
+        if g is not None:
+            body = [st for st in g.node.body if not (isinstance(st, ast.Expr) and isinstance(st.value, ast.Constant))]
+            if len(body) == 1 and isinstance(body[0], ast.Return) and body[0].value is not None:
+                return norm.deep_canon(body[0].value, g.node)
+        return norm.deep_canon(e, wb.node)
+    wroles = ["compression" if norm.canon(e) in comp_texts else _role_w(through_getters(e)) for e in wtuple.elts]
     # reader unpacking: the tuple assigned from the value read_pickle() returned
     G = pm.Alpha(gt)
     rroles = None
@@ -306,6 +320,8 @@ def c10_r1(ctx):
         def decide(t, env, ev):
             if norm.canon(t) in ("(None is self._data)", "(None is not self._data)"):
                 return norm.canon(t) != "(None is self._data)"
+            if is_fs(t):
+                return bool(env["<fs>"])        # `if fixedsize:` -- the truth value of the case's representative
             return cases.compare_concrete(t, lambda e: (True, env["<fs>"]) if is_fs(e) else (False, None))
         out = {}
         for label, rep in (("None", None), ("negative", -1), ("zero", 0), ("positive", 4)):
@@ -582,8 +598,19 @@ def c10_r4(ctx):
     ctx.ob(nb, upd <= reset, "_new_block resets everything add_posting accumulates", detail="accumulated %s; reset %s" % (sorted(upd), sorted(reset)))
     # directions in add_posting
     txt = [norm.canon(n.test) for n in ast.walk(ap.node) if isinstance(n, ast.If)]
-    ok = "(self._maxweight < weight)" in txt and any("length < minlength" in t or "(length < " in t for t in txt) and "(self._maxlength < length)" in txt
-    ctx.ob(ap, ok, "add_posting keeps max weight (>), min length (<) and max length (>)", detail=str(txt))
+    # either spelling: a guarded assignment (`if weight > self._maxweight: self._maxweight = weight`; N24 turns the plain ones into
+    # max()/min()) or the builtin directly
+    folds = {}
+    for st in ast.walk(ap.node):
+        if isinstance(st, ast.Assign) and len(st.targets) == 1 and norm.canon(st.targets[0]).startswith("self._") and isinstance(st.value, ast.Call) \
+                and isinstance(st.value.func, ast.Name) and st.value.func.id in ("max", "min") and len(st.value.args) == 2:
+            args_ = sorted(norm.deep_canon(a_, ap.node) for a_ in st.value.args)
+            folds[norm.canon(st.targets[0])] = (st.value.func.id, args_)
+    ok_w = "(self._maxweight < weight)" in txt or folds.get("self._maxweight") == ("max", sorted(["self._maxweight", "weight"]))
+    ok_min = any("length < minlength" in t or "(length < " in t for t in txt) or folds.get("self._minlength") == ("min", sorted(["self._minlength", "length"]))
+    ok_max = "(self._maxlength < length)" in txt or folds.get("self._maxlength") == ("max", sorted(["self._maxlength", "length"]))
+    ok = ok_w and ok_min and ok_max
+    ctx.ob(ap, ok, "add_posting keeps max weight (>), min length (<) and max length (>)", detail="%s %s" % (txt, folds))
     # block accessors return the matching attribute
     for m, attr in (("max_weight", "self._maxweight"), ("min_length", "self._minlength"), ("max_length", "self._maxlength")):
         f = pw.methods[m]
